@@ -32,6 +32,7 @@ func (c *cache) Put(addr oid.Address, _ *object.Object, data []byte) error {
 
 // put writes object to FSTree and pushes it to the flush workers queue.
 func (c *cache) put(addr oid.Address, data []byte) error {
+	known := c.objCounters.HasAddress(addr)
 	cacheSz := c.objCounters.Size()
 	objSz := uint64(len(data))
 	if c.maxCacheSize < cacheSz+objSz {
@@ -45,8 +46,10 @@ func (c *cache) put(addr oid.Address, data []byte) error {
 
 	verifhook.Point("writecache.put.file")
 	c.objCounters.Add(addr, objSz)
-	c.metrics.IncWCObjectCount()
-	c.metrics.AddWCSize(objSz)
+	if !known {
+		c.metrics.IncWCObjectCount()
+	}
+	c.metrics.SetWCSize(c.objCounters.Size())
 	storagelog.Write(c.log,
 		storagelog.AddressField(addr),
 		storagelog.StorageTypeField(wcStorageType),
